@@ -27,6 +27,7 @@ Definition isec := (N * N * clist * list (N * N * Z))%type.
 Definition NV (k o : N) (s : Z) : nval := (k, o, s).
 Definition CL (tot skip dg : N) (rest : list (N * N * Z)) : clist := (tot, skip, dg, rest).
 Definition SEC (st en : N) (vs : clist) (os : list (N * N * Z)) : isec := (st, en, vs, os).
+Definition T3 (a b c : N) : N * N * N := (a, b, c).
 Definition EN (k o : N) (s : Z) : entry := {| e_key := k; e_off := o; e_size := s |}.
 Definition MET (d f db fb mx : N) : metric :=
   {| m_del := d; m_file := f; m_delb := db; m_fileb := fb; m_max := mx |}.
@@ -104,10 +105,10 @@ Definition res_eqb (a b : res) : bool :=
   end.
 Definition ent_eqb (a b : N * N * Z) : bool := nval_eqb a b.
 (* digest of a list of entries (the harness computes the same in uint64 arithmetic) *)
-Definition dg_p : N := 2147483647.
 Definition dg_step (h : N) (e : N * N * Z) : N :=
   let '(k, o, s) := e in
-  (h * 1000003 + (k mod dg_p) * 7 + (o mod dg_p) * 13 + (Z.to_N (s mod 4294967296)%Z mod dg_p) * 17 + 1) mod dg_p.
+  let s32 := if (s <? 0)%Z then Z.to_N (s + 4294967296)%Z else Z.to_N s in      (* uint32(Size) *)
+  N.land (h * 1000003 + k * 7 + o * 13 + s32 * 17 + 1) 18446744073709551615.   (* uint64 wrap-around *)
 Definition clist_eqb (model : list (N * N * Z)) (impl : clist) : bool :=
   let '(tot, skip, dg, rest) := impl in
   (N.of_nat (length model) =? tot) &&
@@ -304,11 +305,6 @@ Definition prop (c : case) : bool :=
 Definition bloom_fp (c : case) : bool :=
   trig_bloom_fp (c_osz c) (nm_idx (snd (nm_run (c_osz c) (c_batch c) nm0 (c_ops c)))) (c_bloom_mem c) ||
   trig_bloom_fp (c_osz c) (l_idx (snd (ldb_run (c_osz c) ldb0 (c_ops c)))) (c_bloom_ldb c).
-Definition long_bloom_fp (c : case) : bool :=
-  match long_es c with
-  | [] => false
-  | es => negb (bool_list_eqb (c_long_bloom c) (exact_answers [] (rev es)))
-  end.
 Definition trig (c : case) : option N :=
   let ops := c_ops c in
   if p_answers c && p_visit c && p_long c && is_volume_history c && p_running c then
